@@ -11,7 +11,8 @@ from vf.gen import pick_weighted
 from props.b10util import parse_expanded as parse_out, coq_ops, coq_universe
 
 ID = "C39"
-THEOREMS = ["C39_refines_rule", "C39_old_checked", "C39_new_exists", "C39_run_consistent", "C39_refs_closed",
+THEOREMS = ["C39_refines_rule", "C39_old_checked", "C39_old_checked_resolved", "C39_symbolic_refused", "C39_agrees_with_git",
+            "C39_applied_subset_of_git", "C39_new_exists", "C39_run_consistent", "C39_refs_closed",
             "C39_report_exact", "C39_not_accepted_no_update"]
 MODEL_FILES = ["ReceivePack.v"]
 MODELLED = ("plumbing/transport/receive_pack.go (with the three fix commits): ReceivePack control flow after decoding (empty request, malformed "
@@ -22,16 +23,17 @@ MODELLED = ("plumbing/transport/receive_pack.go (with the three fix commits): Re
             "context cancellation; concurrency of two pushes (every update is one storer call: C16)")
 TRUSTED = [
     "C-impl: transport.ReceivePack driven by harness/cmd/c39 (wire-format request built by the harness, packs by packfile.Encoder) over memory / memfs / osfs stores vs Model/ReceivePack.c39_run",
-    "C-git: the consistency rule (old value current and new object present) vs `git receive-pack --stateless-rpc` (git 2.39.5) on generated pushes to real repositories, 15 per quick run, 120 per thorough run",
+    "C-git: the consistency rule (old value = resolved current value, symbolic references followed, update applied to the referent; new object present) vs `git receive-pack --stateless-rpc` (git 2.39.5) on generated pushes to real repositories, 15 per quick run, 120 per thorough run",
     "oracle (python, props/C39.py): replays the reported per-command outcomes on the initial references and checks old-value agreement, presence of the new object, one status per command and the final references",
 ]
 ASSUMPTIONS = ["the storer behaves like the abstract store on Reference / SetReference / CheckAndSetReference / RemoveReference / HasEncodedObject (C17)",
                "a parsable packfile adds exactly its objects to the store"]
 RULE = ("case = (store backend, initial refs/objects, report-status yes/no, command list, packfile contents or none, PreReceive verdict) over "
-        "4 names x 5 objects + 2 ids of no object; buckets: consistent client / stale old / missing new / duplicate names / mixed / "
-        "no report-status / hook rejects / no pack / malformed command / symbolic server ref; non-trivial = at least one command; distinct by content")
+        "5 names (incl. HEAD) x 5 objects + 2 ids of no object; buckets: consistent client / stale old / missing new / duplicate names / mixed / "
+        "no report-status / hook rejects / no pack / malformed command / symbolic server refs (HEAD -> branch, branch alias, dangling alias, "
+        "chain; create / update / delete / stale commands naming them); non-trivial = at least one command; distinct by content")
 
-NAMES = ["refs/heads/a", "refs/heads/b", "refs/tags/t", "refs/heads/c"]
+NAMES = ["refs/heads/a", "refs/heads/b", "refs/tags/t", "refs/heads/c", "HEAD"]
 OBJS = [[3, b"blob zero".hex()], [3, b"b1".hex()], [2, b"".hex()],
         [1, b"tree 4b825dc642cb6eb9a060e54bf8d69288fbee4904\nauthor a <a@b> 1 +0000\ncommitter a <a@b> 1 +0000\n\nm\n".hex()],
         [1, b"tree 4b825dc642cb6eb9a060e54bf8d69288fbee4904\nauthor a <a@b> 2 +0000\ncommitter a <a@b> 2 +0000\n\nn\n".hex()]]
@@ -48,6 +50,19 @@ def sim_init(init):
         elif o[0] == "setobj":
             objs.add(o[1])
     return refs, objs
+
+
+def resolve(refs, nm, fuel=8):
+    """git's notion of the current value: follow symbolic references.  -> (referent, object id or -1 when the referent
+    does not exist), or None when the chain does not end (a loop)"""
+    while fuel > 0:
+        v = refs.get(nm)
+        if v is None:
+            return nm, -1
+        if v[0] == "h":
+            return nm, v[1]
+        nm, fuel = v[1], fuel - 1
+    return None
 
 
 def cur_id(v):
@@ -67,23 +82,90 @@ class Main(Suite):
 
     def exhaustive(self):
         """small scope, thorough tier: every list of <= 2 commands over 2 names x old in {zero, o0, o1} x new in
-        {zero, o0, o3 (in the pack), o5 (nowhere)} on every initial state of the two names in {absent, o0}"""
+        {zero, o0, o3 (in the pack), o5 (nowhere)} on every initial state of the two names in {absent, o0}; and, with
+        one of the names symbolic (-> the other name, which is absent or o0; or both symbolic: a loop), every single
+        command and every pair over old in {zero, o0} x new in {zero, o0, o3}"""
         import itertools
         one = [[nm, o, w] for nm in (0, 1) for o in (-1, 0, 1) for w in (-1, 0, 3, 5)]
+        small = [[nm, o, w] for nm in (0, 1) for o in (-1, 0) for w in (-1, 0, 3)]
         cases = []
+
+        def add(init, cmds, tag):
+            cases.append({"bucket": "exhaustive-%s%d" % (tag, len(cmds)), "base": "memory" if len(cases) % 4 else "memfs",
+                          "names": NAMES, "objs": OBJS, "init": init, "report": True, "cmds": [list(c) for c in cmds],
+                          "pack": [3], "reject": False})
         for st in itertools.product([None, 0], repeat=2):
             init = [["setobj", 0], ["setobj", 1]] + [["setref", nm, ["h", v]] for nm, v in enumerate(st) if v is not None]
             for cmds in [[c] for c in one] + [[a, b] for a in one for b in one]:
-                cases.append({"bucket": "exhaustive-%d" % len(cmds), "base": "memory" if len(cases) % 4 else "memfs", "names": NAMES,
-                              "objs": OBJS, "init": init, "report": True, "cmds": [list(c) for c in cmds], "pack": [3], "reject": False})
+                add(init, cmds, "")
+        sym_states = [{0: ["s", 1]}, {0: ["s", 1], 1: ["h", 0]}, {1: ["s", 0]}, {1: ["s", 0], 0: ["h", 0]}, {0: ["s", 1], 1: ["s", 0]}]
+        for st in sym_states:
+            init = [["setobj", 0], ["setobj", 1]] + [["setref", nm, v] for nm, v in sorted(st.items())]
+            for cmds in [[c] for c in one] + [[a, b] for a in small for b in small if a[0] != b[0]]:
+                add(init, cmds, "sym")
         return cases
+
+    def symref_case(self, rng):
+        """server stores with symbolic references — HEAD -> branch, a branch alias, a dangling alias, a chain — and
+        commands of every action naming them: create (zero old), update / delete with old = the resolved value, stale
+        old, old = zero; also commands on their referents"""
+        HEAD, ALIAS = 4, 3
+        init = []
+        for nm in (0, 1):
+            if rng.random() < 0.7:
+                init.append(["setref", nm, ["h", rng.randrange(NO)]])
+        shape = rng.randrange(5)
+        if shape == 0:        # HEAD -> branch (existing or unborn)
+            init.append(["setref", HEAD, ["s", rng.choice([0, 1])]])
+        elif shape == 1:      # alias -> branch
+            init.append(["setref", ALIAS, ["s", rng.choice([0, 1])]])
+        elif shape == 2:      # dangling alias (the tag name is never set in this bucket)
+            init.append(["setref", ALIAS, ["s", 2]])
+        elif shape == 3:      # chain: alias -> HEAD -> branch
+            init += [["setref", HEAD, ["s", rng.choice([0, 1])]], ["setref", ALIAS, ["s", HEAD]]]
+        else:                 # both, independent
+            init += [["setref", HEAD, ["s", 0]], ["setref", ALIAS, ["s", 1]]]
+        have = [o for o in range(NO) if rng.random() < 0.6]
+        init += [["setobj", o] for o in have]
+        rng.shuffle(init)
+        refs, objs = sim_init(init)
+        pack = sorted(set(rng.randrange(NO) for _ in range(rng.randrange(0, 3))))
+        avail = sorted(objs | set(pack)) or [0]
+        syms = [nm for nm, v in refs.items() if v[0] == "s"]
+        cmds, used = [], set()
+        for _ in range(pick_weighted(rng, [(5, 1), (3, 2), (1, 3)])):
+            nm = rng.choice(syms) if rng.random() < 0.75 else rng.randrange(NN)
+            if nm in used:
+                continue
+            used.add(nm)
+            r = resolve(refs, nm)
+            rv = r[1] if r else -1
+            action = pick_weighted(rng, [(4, "create"), (3, "update"), (2, "delete"), (2, "stale")])
+            new = rng.choice(avail)
+            if action == "create":
+                old = -1
+            elif action == "update":
+                old = rv if rv != -1 else rng.randrange(NO)
+            elif action == "delete":
+                old, new = (rv if rv != -1 else rng.randrange(NO)), -1
+            else:
+                old = rng.choice([o for o in range(NO) if o != rv])
+                new = new if rng.random() < 0.7 else -1
+            cmds.append([nm, old, new])
+        if not cmds:
+            cmds = [[syms[0], -1, avail[0]]]
+        return {"bucket": "symref", "base": pick_weighted(rng, BASES), "names": NAMES, "objs": OBJS, "init": init,
+                "report": True, "cmds": cmds, "pack": pack, "reject": False}
 
     def gen(self, rng, n, tier):
         cases = self.exhaustive() if tier == "thorough" else []
         buckets = [(4, "consistent"), (3, "stale"), (3, "missing"), (3, "dups"), (4, "mixed"), (1, "noreport"),
-                   (1, "reject"), (1, "nopack"), (1, "invalid"), (1, "symbolic")]
+                   (1, "reject"), (1, "nopack"), (1, "invalid"), (1, "symbolic"), (5, "symref")]
         for _ in range(n):
             b = pick_weighted(rng, buckets)
+            if b == "symref":
+                cases.append(self.symref_case(rng))
+                continue
             base = pick_weighted(rng, BASES)
             init = []
             for nm in range(NN):
@@ -99,14 +181,15 @@ class Main(Suite):
             pack = sorted(set(rng.randrange(NO) for _ in range(rng.randrange(0, 3))))
             avail = sorted(objs | set(pack)) or [0]
             k = pick_weighted(rng, [(4, 1), (3, 2), (2, 3), (1, 4)])
-            cur = {nm: cur_id(v) for nm, v in refs.items()}
             cmds = []
             for j in range(k):
                 nm = rng.randrange(NN)
                 if b == "dups" and cmds and rng.random() < 0.7:
                     nm = rng.choice(cmds)[0]
-                c = cur.get(nm, -1)
-                good_old = c if c != "sym" else rng.randrange(NO)
+                # the value a well-behaved client would send as old: the resolved value of the name
+                r = resolve(refs, nm)
+                good_old = r[1] if r else rng.randrange(NO)
+                direct = refs.get(nm) is None or refs[nm][0] == "h"
                 kind = b if b != "mixed" else pick_weighted(rng, [(3, "consistent"), (2, "stale"), (2, "missing"), (1, "dups")])
                 # the new value: delete, an available object, or (missing) an object that is nowhere
                 if good_old != -1 and rng.random() < 0.3:
@@ -119,18 +202,20 @@ class Main(Suite):
                 old = good_old
                 if kind == "stale" and rng.random() < 0.8:
                     old = rng.choice([o for o in list(range(NO)) + [-1] + DANGLING[:1] if o != good_old])
+                if b == "symbolic" and not direct and rng.random() < 0.4:
+                    old = -1            # a create against an existing symbolic reference
                 if old == -1 and new == -1:
                     if b == "invalid" and rng.random() < 0.6:
                         pass
                     else:
                         new = rng.choice(avail)
                 cmds.append([nm, old, new])
-                # what a correct server would hold afterwards
-                if old == c and (new == -1 or new in avail):
+                # what a correct server (go-git: direct references only) would hold afterwards
+                if direct and old == good_old and (new == -1 or new in avail):
                     if new == -1:
-                        cur.pop(nm, None)
+                        refs.pop(nm, None)
                     else:
-                        cur[nm] = new
+                        refs[nm] = ("h", new)
             if b == "invalid" and all(not (c[1] == -1 and c[2] == -1) for c in cmds):
                 cmds[rng.randrange(len(cmds))][1:] = [-1, -1]
             case = {"bucket": b, "base": base, "names": NAMES, "objs": OBJS, "init": init, "report": b != "noreport",
@@ -157,15 +242,17 @@ class Main(Suite):
         for (nm, old, new), applied in zip(c["cmds"], mask):
             if not applied:
                 continue
-            cur = cur_id(refs.get(nm))
-            if cur != old:
-                return ("stale-old", "command %r applied while the reference held %r" % ([nm, old, new], cur)), None
+            # the current value in git's sense: through symbolic references; the update goes to the referent
+            r = resolve(refs, nm)
+            if r is None or r[1] != old:
+                return ("stale-old", "command %r applied while the reference held %r (resolved: %r)" % (
+                    [nm, old, new], refs.get(nm), r)), None
             if new != -1 and new not in final_objs:
                 return ("missing-new", "command %r applied but object %d is not in the repository" % ([nm, old, new], new)), None
             if new == -1:
-                refs.pop(nm, None)
+                refs.pop(r[0], None)
             else:
-                refs[nm] = ("h", new)
+                refs[r[0]] = ("h", new)
         return None, refs
 
     def check(self, c, got):
@@ -254,9 +341,11 @@ class Main(Suite):
 
     # ------------------------------------------------------------ C-git: the rule against git receive-pack
     def cgit(self, ctx, n):
-        """the rule the oracle and Proofs/C39.spec_apply use (apply a command iff its old value is current and its
-        new object is present) against `git receive-pack --stateless-rpc` on real repositories: commits c0, c1 (child
-        of c0) in the repository, c2 only in the pushed pack (or nowhere), names refs/heads/a, refs/heads/b"""
+        """the rule the oracle and Proofs/C39.git_apply use (apply a command iff its old value is the RESOLVED current
+        value and its new object is present; the update goes to the referent) against `git receive-pack --stateless-rpc`
+        on real repositories: commits c0, c1 (child of c0) in the repository, c2 only in the pushed pack (or nowhere),
+        names refs/heads/a, refs/heads/b and, in half of the repositories, a symbolic refs/heads/alias -> a | b | a
+        branch that does not exist"""
         env = dict(os.environ, GIT_AUTHOR_NAME="a", GIT_AUTHOR_EMAIL="a@b", GIT_COMMITTER_NAME="a", GIT_COMMITTER_EMAIL="a@b",
                    GIT_AUTHOR_DATE="1700000000 +0000", GIT_COMMITTER_DATE="1700000000 +0000", GIT_CONFIG_NOSYSTEM="1", HOME=ctx.tmp)
 
@@ -281,36 +370,53 @@ class Main(Suite):
             os.makedirs(d, exist_ok=True)
             shutil.copy(os.path.join(src, "objects", o[:2], o[2:]), os.path.join(d, o[2:]))
         ids = {0: c0, 1: c1, 2: c2, 3: "dead" * 10, -1: "0" * 40}
-        names = ["refs/heads/a", "refs/heads/b"]
+        names = ["refs/heads/a", "refs/heads/b", "refs/heads/alias", "refs/heads/nope"]
+        ALIAS, NOPE = 2, 3
         rng = random.Random(ctx.seed + 39)
         ran = mism = 0
         for k in range(n):
             st = {nm: rng.choice([None, 0, 1]) for nm in (0, 1)}
+            refs = {nm: ("h", v) for nm, v in st.items() if v is not None}
+            # half of the repositories have a symbolic branch: alias -> a | b | a branch that does not exist
+            if rng.random() < 0.5:
+                refs[ALIAS] = ("s", rng.choice([0, 1, NOPE]))
+            st0 = dict(refs)
             with_c2 = rng.random() < 0.6
             present = {0, 1} | ({2} if with_c2 else set())
-            cmds = []
-            for nm in rng.sample([0, 1], rng.choice([1, 2])):
-                cur = st[nm] if st[nm] is not None else -1
+            cmds, busy = [], set()
+            cand = [0, 1] + ([ALIAS, ALIAS] if ALIAS in refs else [])
+            for nm in rng.sample(cand, rng.choice([1, 2])):
+                r = resolve(refs, nm)
+                if nm in busy or r[0] in busy:      # never the alias and its referent in one push
+                    continue
+                busy.update({nm, r[0]})
+                cur = r[1]
                 old = cur if rng.random() < 0.6 else rng.choice([-1, 0, 1, 2])
                 new = rng.choice([-1, 0, 1, 2, 2, 3])
                 if old == -1 and new == -1:
                     new = 0
+                if new == -1 and old not in (0, 1):
+                    # git lets a delete through when it does not have the old object at all ("deleting a
+                    # non-existent ref" / "allowing deletion of corrupt ref"): outside the compared region
+                    old = 0
                 cmds.append((nm, old, new))
-            # the rule
-            want, refs = {}, dict(st)
+            # the rule: compare old with the resolved value, update the referent
+            want = {}
             for nm, old, new in cmds:
-                cur = refs[nm] if refs[nm] is not None else -1
+                tgt, cur = resolve(refs, nm)
                 ok = cur == old and (new == -1 or new in present)
                 want[nm] = ok
                 if ok:
-                    refs[nm] = None if new == -1 else new
+                    if new == -1:
+                        refs.pop(tgt, None)
+                    else:
+                        refs[tgt] = ("h", new)
             # git
             repo = os.path.join(ctx.tmp, "cgit-%d.git" % k)
             shutil.copytree(tmpl, repo)
-            for nm, v in st.items():
-                if v is not None:
-                    os.makedirs(os.path.join(repo, "refs", "heads"), exist_ok=True)
-                    open(os.path.join(repo, names[nm]), "w").write(ids[v] + "\n")
+            os.makedirs(os.path.join(repo, "refs", "heads"), exist_ok=True)
+            for nm, v in st0.items():
+                open(os.path.join(repo, names[nm]), "w").write((ids[v[1]] if v[0] == "h" else "ref: " + names[v[1]]) + "\n")
             req = b""
             for i, (nm, old, new) in enumerate(cmds):
                 line = ("%s %s %s" % (ids[old], ids[new], names[nm])).encode() + (b"\0report-status" if i == 0 else b"")
@@ -330,18 +436,20 @@ class Main(Suite):
                 if f[0] in ("ok", "ng") and f[1] in names:
                     got[names.index(f[1])] = f[0] == "ok"
             gitrefs = {}
-            for nm in (0, 1):
+            for nm in range(len(names)):
                 fp = os.path.join(repo, names[nm])
-                gitrefs[nm] = None
                 if os.path.exists(fp):
                     h = open(fp).read().strip()
-                    gitrefs[nm] = [x for x, y in ids.items() if y == h][0]
+                    if h.startswith("ref: "):
+                        gitrefs[nm] = ("s", names.index(h[5:]))
+                    else:
+                        gitrefs[nm] = ("h", [x for x, y in ids.items() if y == h][0])
             shutil.rmtree(repo, ignore_errors=True)
             ran += 1
             if got != want or gitrefs != refs:
                 mism += 1
                 ctx.notes.append("spec_mismatch (rule vs git receive-pack): state %r pack_has_c2=%r cmds %r: rule %r refs %r, git %r refs %r" %
-                                 (st, with_c2, cmds, want, refs, got, gitrefs))
+                                 (st0, with_c2, cmds, want, refs, got, gitrefs))
         return ran, mism
 
     def extra(self, ctx, cases, impl, model):
